@@ -31,8 +31,20 @@ R = Run('association graphs over 12 classes (binary/ternary, key/non-key refs, s
         'with the same names at other places in the tree); 4 namespaces with same-named classes in 2 different trees, '
         'namespaces removed and re-added with the other tree; instances written through the 3 ways, reference values '
         'modified, paths reused; ModifyClass directly and through MOF redefinition; seeded random histories over 11 '
-        'kinds of change (quick 2 x 7 steps, thorough 8 x 25); probes: MOF redefinition in a non-default namespace, '
-        'MOF instance after class change')
+        'kinds of change + refused operations and failed batches (quick 2 x 7 steps, thorough 8 x 25); REFUSED '
+        'operations between the rounds, the model ignoring them (70 kinds: CreateInstance / add_cimobjects / '
+        'compile_mof_string of one instance with an existing key (one namespace; cross-namespace with the key taken in '
+        'the request namespace only / a far-end namespace only / one of two far-end namespaces; again through the '
+        'other copy), missing/hosted/namespace-less reference targets, class missing in the far-end namespace, '
+        'undeclared properties, missing keys, wrong types, missing class/namespace; ModifyInstance of a missing '
+        'instance, of keys, with an end moved to a namespace without the class / without a copy / to a missing target '
+        '/ to NULL, a valid change followed by an invalid one, through the other copy; DeleteInstance of missing '
+        'objects; CreateClass/ModifyClass/DeleteClass/DeleteQualifier/add_namespace/remove_namespace refusals through '
+        'the 3 ways), a round after each (quick: after the cross-namespace and multi-change kinds and a fifth of the '
+        'others, store comparison after the rest; thorough: after each, two sweeps), failed add_cimobjects / '
+        'compile_mof_string batches with the invalid element at each of 3 positions (prefix booked as applied, as '
+        'recorded under C11); probes: MOF redefinition in a non-default namespace, MOF instance after class change, '
+        'delete through an end namespace')
 
 NSS = ('root/a', 'root/b', 'root/c')
 MOF = '''
@@ -1223,6 +1235,21 @@ class Hist:
             raise Abort()
         return r[1]
 
+    def refuse(self, kind, text, fn, *a, **k):
+        """An operation the server has to refuse. Nothing is booked for it."""
+        about = k.pop('about', ())
+        self.steps.append('to be refused (%s) %s' % (kind, text))
+        R.case((self.name, 'refused', kind, len(self.steps)))
+        r = call(fn, *a, **k)
+        if r[0] == 'ok':
+            self.steps[-1] += ' -> ACCEPTED'
+            self.bad('history-invalid-operation-accepted', kind=kind, operation=text)
+            raise Abort()       # the book no longer says what is stored
+        self.steps[-1] += ' -> refused %r' % (r[1:],)
+        if r[0] == 'exc' and r[1] not in ('ValueError', 'MOFDependencyError', 'MOFRepositoryError', 'MOFParseError'):
+            self.bad('history-refusal-is-an-internal-error', kind=kind, operation=text, observed=repr(r))
+        self.touched.update(about)
+
     def bad(self, vid, **d):
         viol(vid, history=self.name, steps=self.steps[-40:], nsteps=len(self.steps), round=self.nround, **d)
 
@@ -1498,7 +1525,7 @@ class Hist:
             self.flts, self.rflts, self.cflts = self.matrix[2 if full else 1]
         self.nround += 1
         self.steps.append('-- round %d (%s)' % (self.nround, label))
-        self.check_stores()
+        stores_ok = self.check_stores(go_on=True)
         srcs = self.sources()
         obs = {}
         for flt in self.flts:
@@ -1522,9 +1549,14 @@ class Hist:
             if k % 2 == 0 or not self.quick:
                 self.pulls(src, flt)
         self.repeat_class(self.rnd.choice(nss), self.rnd.choice(self.targets[:-2]))
+        if not stores_ok:
+            raise Abort()
         self.check_stores()
 
-    def check_stores(self):
+    def check_stores(self, go_on=False):
+        """Stored classes and instance paths per namespace against the book. A difference ends the history (the book
+        no longer says what is stored) - with go_on only after the round that follows has been asked as well."""
+        ok = True
         for ns in sorted(self.m):
             R.case((self.name, self.nround, 'store', ns))
             mns = self.m[ns]
@@ -1532,20 +1564,25 @@ class Hist:
             if r[0] != 'ok' or sorted(c.lower() for c in r[1]) != sorted(mns.cls):
                 self.bad('history-stored-classes-differ-from-model', namespace=ns, observed=repr(r)[:300],
                          expected=sorted(mns.cls))
-                raise Abort()
+                ok = False
+                continue
             got = []
             for c in mns.cls.values():
                 if c.parent is None:
                     r = call(self.conn.EnumerateInstanceNames, c.name, namespace=ns)
                     if r[0] != 'ok':
                         self.bad('history-enumerate-instances-fails', namespace=ns, observed=repr(r)[:300])
-                        raise Abort()
-                    got.extend(kpath(p) for p in r[1])
+                        ok = False
+                    else:
+                        got.extend(kpath(p) for p in r[1])
             exp = srt(list(mns.nodes) + [rec.key(ns, mns.cls[rec.cls.lower()]) for rec in mns.assocs.values()])
             if srt(got) != exp:
                 self.bad('history-stored-instances-differ-from-model', namespace=ns, observed=repr(srt(got))[:400],
                          expected=repr(exp)[:400])
-                raise Abort()
+                ok = False
+        if not ok and not go_on:
+            raise Abort()
+        return ok
 
     def inst_ok(self, inst):
         k = kpath(inst.path)
@@ -2198,7 +2235,14 @@ def hist_random(i, rnd, quick, nsteps):
         h.remove_ns(rnd.choice(opts))
         return True
 
-    ops = [op_node] * 3 + [op_assoc] * 6 + [op_modify] * 3 + [op_delassoc] * 2 + [op_delnode] + [op_subclass] * 5 + \
+    def op_refused():
+        if rnd.random() < 0.25:
+            w = rnd.choice(('add', 'mof'))
+            return failed_batch(h, w, rnd.randrange(3), rnd.choice(BATCH_BAD[w]))
+        rnd.choice(rejections(h, limit=1))[1]()
+        return True
+
+    ops = [op_refused] * 6 + [op_node] * 3 + [op_assoc] * 6 + [op_modify] * 3 + [op_delassoc] * 2 + [op_delnode] + [op_subclass] * 5 + \
         [op_delclass] * 2 + [op_top] * 2 + [op_addns, op_rmns]
     for ns in sorted(h.m):
         for k in range(3):
@@ -2306,6 +2350,409 @@ def probe_mof_redefinition_namespace():
 
 
 # ---------------------------------------------------------------- main
+# ---------------------------------------------------------------- refused operations between the rounds
+# The model ignores a refused single-object operation entirely: whatever the server kept of it shows up in the next
+# round (stores and traversal against the unchanged book). Batches (add_cimobjects with a list, compile_mof_string with
+# several elements) are different: the unchanged tree keeps the elements before the invalid one (recorded under C11 as
+# known:add_cimobjects-batch-prefix-kept / known:compile_mof_string-prefix-kept), so for a failed batch the book takes
+# the prefix as applied and nothing from the invalid element on - that the traversal matches THAT is what is checked.
+def unsynced(cls, props, path):
+    """Instance whose path is set after the properties (the constructor would re-key the path from key properties)."""
+    i = CIMInstance(cls, properties=props)
+    i.path = path
+    return i
+
+
+def rejections(h, class_ns=None, limit=None):
+    """(kind, thunk) for every kind of operation the server has to refuse that the present state allows."""
+    c, rnd, out = h.conn, h.rnd, []
+    nss = sorted(h.m)
+    inst = CIMInstance
+
+    def add(kind, text, fn, *a, **k):
+        about = k.pop('about', ())
+        out.append((kind, lambda: h.refuse(kind, text, fn, *a, about=[nodekey(n) for n in about], **k)))
+
+    def some(seq):
+        seq = list(seq)
+        return rnd.choice(seq) if seq else None
+
+    def roots(ns, t='N_Base'):      # nodes of a root class (safe as ends seen from another namespace)
+        return [n for n in h.m[ns].nodes.values() if n[1].lower() == t.lower()]
+
+    def ghost(ns):
+        return (ns, 'N_Base', 'no-such')
+
+    def props(rec, mc, ends=None):
+        p = {r: h.npath(e) for r, e in (ends or rec.ends)}
+        if mc.idkey:
+            p['Id'] = rec.aid
+        return p
+
+    recs = [(ns, aid, rec, h.m[ns].cls[rec.cls.lower()]) for ns in nss for aid, rec in sorted(h.m[ns].assocs.items())]
+    intra = [t for t in recs if h.holders(t[1]) == [t[0]]]
+    intra_id = [t for t in intra if t[3].idkey and all(x == 'N_Base' for _, x in t[3].refs)]
+    cross = [t for t in recs if len(h.holders(t[1])) > 1 and t[0] == h.req[t[1]]]
+    loose = [t for t in intra if [r for r, _ in t[3].refs if r not in t[3].keyroles]]    # has a non-key reference
+    ns0 = 'root/a'
+    n0 = some(n for ns in nss for n in h.m[ns].nodes.values())
+
+    # ---- CreateInstance / add_cimobjects / compile_mof_string of ONE instance
+    if n0:
+        add('create/existing-node', '%s:%s.Id=%s' % n0, c.CreateInstance, inst(n0[1], properties={'Id': n0[2]}),
+            namespace=n0[0], about=[n0])
+        add('add/existing-node', '%s:%s.Id=%s' % n0, c.add_cimobjects,
+            inst(n0[1], properties={'Id': n0[2]}, path=h.npath(n0)), namespace=n0[0], about=[n0])
+        add('add/instance-without-path', n0[1], c.add_cimobjects, inst(n0[1], properties={'Id': 'np'}), namespace=n0[0])
+        add('create/undeclared-property', n0[1], c.CreateInstance, inst(n0[1], properties={'Id': 'up', 'Bogus': 'x'}),
+            namespace=n0[0])
+        add('mof/undeclared-property', n0[1], c.compile_mof_string,
+            'instance of %s { Id = "up"; Bogus = "x"; };' % n0[1], namespace=n0[0])
+        add('create/namespace-missing', n0[1], c.CreateInstance, inst(n0[1], properties={'Id': 'nm'}),
+            namespace='root/zz')
+        add('modify/key-of-node', '%s:%s.Id=%s' % n0, c.ModifyInstance, unsynced(n0[1], {'Id': 'rekeyed'}, h.npath(n0)),
+            about=[n0])
+        add('modify/namespace-missing', n0[1], c.ModifyInstance,
+            inst(n0[1], properties={'Id': n0[2]}, path=h.npath(('root/zz',) + n0[1:])))
+        add('delete/namespace-missing', n0[1], c.DeleteInstance, h.npath(('root/zz',) + n0[1:]))
+    for ns in nss[:2]:
+        add('create/class-missing', ns, c.CreateInstance, inst('N_Nope', properties={'Id': 'q'}), namespace=ns)
+        add('mof/instance-of-unknown-class', ns, c.compile_mof_string, 'instance of N_Nope { Id = "q"; };', namespace=ns)
+        add('modify/missing-node', ns, c.ModifyInstance, inst('N_Base', properties={'Id': 'no-such'}, path=h.npath(ghost(ns))))
+        add('delete/missing-node', ns, c.DeleteInstance, h.npath(ghost(ns)))
+        add('delete/class-missing', ns, c.DeleteInstance, CIMInstanceName('N_Nope', {'Id': 'x'}, namespace=ns))
+    t = some(x for x in intra if not x[3].idkey)
+    if t:
+        ns, aid, rec, mc = t
+        add('create/existing-association-key-references', aid, c.CreateInstance, inst(rec.cls, properties=props(rec, mc)),
+            namespace=ns, about=[e for _, e in rec.ends])
+        add('add/existing-association', aid, c.add_cimobjects,
+            inst(rec.cls, properties=props(rec, mc), path=h.apath(rec, ns)), namespace=ns, about=[e for _, e in rec.ends])
+        add('create/missing-key-reference', rec.cls, c.CreateInstance,
+            inst(rec.cls, properties={rec.ends[0][0]: h.npath(rec.ends[0][1])}), namespace=ns, about=[rec.ends[0][1]])
+        add('create/reference-given-as-string', rec.cls, c.CreateInstance,
+            inst(rec.cls, properties=dict(props(rec, mc), **{rec.ends[0][0]: 'x'})), namespace=ns)
+        add('create/undeclared-reference', rec.cls, c.CreateInstance,
+            inst(rec.cls, properties=dict(props(rec, mc), Bogus=h.npath(rec.ends[0][1]))), namespace=ns,
+            about=[e for _, e in rec.ends])
+        e0 = rec.ends[0][1]
+        bad_ends = [(rec.ends[0][0], e0)] + [(r, ghost(ns)) for r, _ in rec.ends[1:]]
+        add('create/reference-target-missing', rec.cls, c.CreateInstance,
+            inst(rec.cls, properties=props(rec, mc, bad_ends)), namespace=ns, about=[e0])
+        add('mof/reference-target-missing', rec.cls, c.compile_mof_string, 'instance of %s { %s};' % (
+            rec.cls, ''.join('%s = "%s:%s.Id=\\"%s\\""; ' % ((r,) + e) for r, e in bad_ends)), namespace=ns, about=[e0])
+        add('modify/key-reference', aid, c.ModifyInstance,
+            unsynced(rec.cls, {rec.ends[-1][0]: h.npath(e0)}, h.apath(rec, ns)), about=[e for _, e in rec.ends])
+        h.mof_saw(ns, [x.name for x in h.m[ns].chain(rec.cls)])
+    for t in ([some(intra_id)] if intra_id else []):
+        ns, aid, rec, mc = t
+        (r1, e1), (r2, e2) = rec.ends[0], rec.ends[-1]
+        add('create/existing-association-id', aid, c.CreateInstance,
+            inst(rec.cls, properties={'Id': aid, r1: h.npath(e2), r2: h.npath(e1)}), namespace=ns, about=[e1, e2])
+        add('create/missing-key-id', rec.cls, c.CreateInstance,
+            inst(rec.cls, properties={r1: h.npath(e1), r2: h.npath(e2)}), namespace=ns, about=[e1, e2])
+        add('modify/key-id-of-association', aid, c.ModifyInstance, unsynced(rec.cls, {'Id': 'rekeyed'}, h.apath(rec, ns)),
+            about=[e1, e2])
+        add('modify/missing-association', rec.cls, c.ModifyInstance,
+            inst(rec.cls, properties={r2: h.npath(e1)}, path=CIMInstanceName(rec.cls, {'Id': 'no-such'}, namespace=ns)),
+            about=[e1])
+        add('delete/missing-association', rec.cls, c.DeleteInstance, CIMInstanceName(rec.cls, {'Id': 'no-such'}, namespace=ns))
+        add('create/reference-target-in-missing-namespace', rec.cls, c.CreateInstance,
+            inst(rec.cls, properties={'Id': 'tm', r1: h.npath(e1), r2: h.npath(('root/zz',) + e2[1:])}), namespace=ns,
+            about=[e1])
+        hp = h.npath(e2)
+        hp.host = 'elsewhere'
+        add('create/reference-target-with-host', rec.cls, c.CreateInstance,
+            inst(rec.cls, properties={'Id': 'th', r1: h.npath(e1), r2: hp}), namespace=ns, about=[e1, e2])
+        np_ = h.npath(e2)
+        np_.namespace = None
+        add('create/reference-target-without-namespace', rec.cls, c.CreateInstance,
+            inst(rec.cls, properties={'Id': 'tn', r1: h.npath(e1), r2: np_}), namespace=ns, about=[e1, e2])
+    # cross-namespace creations that collide with an association living in ONE namespace only
+    plain = [t for t in intra_id if t[3].parent is None and t[3].declared]
+    rnd.shuffle(plain)
+    for ns, aid, rec, mc in plain[:limit]:
+        r1, r2 = rec.ends[0][0], rec.ends[-1][0]
+        for o in nss:
+            oc = h.m[o].cls.get(rec.cls.lower())
+            na, nb = some(roots(ns)), some(roots(o))
+            if o == ns or oc is None or oc.parent is not None or not na or not nb:
+                continue
+            add('create/cross-namespace-key-exists-in-request-namespace-only', '%s %s in %s, far end in %s' % (
+                rec.cls, aid, ns, o), c.CreateInstance,
+                inst(rec.cls, properties={'Id': aid, r1: h.npath(na), r2: h.npath(nb)}), namespace=ns, about=[na, nb])
+            add('mof/cross-namespace-key-exists-in-request-namespace-only', '%s %s in %s, far end in %s' % (
+                rec.cls, aid, ns, o), c.compile_mof_string, 'instance of %s { Id = "%s"; %s = "%s:%s.Id=\\"%s\\""; '
+                '%s = "%s:%s.Id=\\"%s\\""; };' % ((rec.cls, aid, r1) + na + (r2,) + nb), namespace=ns, about=[na, nb])
+            h.mof_saw(ns, [rec.cls])
+            add('create/cross-namespace-key-exists-in-far-end-namespace-only', '%s %s in %s, requested in %s' % (
+                rec.cls, aid, ns, o), c.CreateInstance,
+                inst(rec.cls, properties={'Id': aid, r1: h.npath(nb), r2: h.npath(na)}), namespace=o, about=[na, nb])
+            for third in nss:
+                tc = h.m[third].cls.get(rec.cls.lower())
+                if third in (ns, o) or tc is None or tc.parent is not None:
+                    continue
+                for x, y in ((na, nb), (nb, na)):
+                    add('create/cross-namespace-key-exists-in-one-of-two-far-end-namespaces', '%s %s in %s, requested '
+                        'in %s, other far end in %s' % (rec.cls, aid, ns, third, o), c.CreateInstance,
+                        inst(rec.cls, properties={'Id': aid, r1: h.npath(x), r2: h.npath(y)}), namespace=third,
+                        about=[na, nb])
+            break
+    for ns, aid, rec, mc in cross[:limit]:
+        other = [o for o in h.holders(aid) if o != ns][0]
+        add('create/cross-namespace-association-again-through-other-namespace', aid, c.CreateInstance,
+            inst(rec.cls, properties=props(rec, mc)), namespace=other, about=[e for _, e in rec.ends])
+        nk = [r for r, _ in mc.refs if r not in mc.keyroles]
+        if nk:
+            far = dict(rec.ends)[nk[0]]
+            add('modify/cross-namespace-through-other-copy-to-missing-target', aid, c.ModifyInstance,
+                inst(rec.cls, properties={nk[0]: h.npath(ghost(far[0]))}, path=h.apath(rec, other)),
+                about=[e for _, e in rec.ends])
+            third = some(o for o in nss if o not in rec.nss() | {ns} and h.m[o].exists(rec.cls) and roots(o))
+            if third:
+                add('modify/cross-namespace-end-to-third-namespace', aid, c.ModifyInstance,
+                    inst(rec.cls, properties={nk[0]: h.npath(roots(third)[0])}, path=h.apath(rec, ns)),
+                    about=[e for _, e in rec.ends] + [roots(third)[0]])
+        gone = some(o for o in nss if o not in h.holders(aid) and h.m[o].exists(rec.cls))
+        if gone and mc.idkey:
+            add('delete/through-namespace-without-copy', aid, c.DeleteInstance,
+                CIMInstanceName(rec.cls, {'Id': aid}, namespace=gone), about=[e for _, e in rec.ends])
+    # ---- ModifyInstance of a non-key reference
+    t = some(loose)
+    if t:
+        ns, aid, rec, mc = t
+        nk = [r for r, _ in mc.refs if r not in mc.keyroles]
+        ends = dict(rec.ends)
+        path = h.apath(rec, ns)
+        about = [e for _, e in rec.ends]
+        add('modify/end-to-missing-target', aid, c.ModifyInstance,
+            inst(rec.cls, properties={nk[-1]: h.npath(ghost(ns))}, path=path), about=about)
+        add('modify/end-to-null', aid, c.ModifyInstance,
+            inst(rec.cls, properties=[CIMProperty(nk[-1], None, type='reference')], path=path), about=about)
+        add('modify/undeclared-property', aid, c.ModifyInstance, inst(rec.cls, properties={'Bogus': 'x'}, path=path),
+            about=about)
+        add('modify/class-differs-from-path', aid, c.ModifyInstance,
+            inst('N_Base', properties={nk[-1]: h.npath(ends[nk[0]])}, path=path), about=about)
+        alt = some(n for n in h.m[ns].nodes.values() if h.m[ns].is_a(n[1], dict(mc.refs)[nk[0]]) and n != ends[nk[0]])
+        if alt and len(nk) > 1:     # the valid change comes first: written before the invalid one is looked at?
+            add('modify/one-valid-one-invalid-end', aid, c.ModifyInstance,
+                inst(rec.cls, properties=[CIMProperty(nk[0], h.npath(alt)), CIMProperty(nk[-1], h.npath(ghost(ns)))],
+                     path=path), about=about + [alt])
+            add('modify/valid-end-and-undeclared-property', aid, c.ModifyInstance,
+                inst(rec.cls, properties=[CIMProperty(nk[0], h.npath(alt)), CIMProperty('Bogus', 'x')], path=path),
+                about=about + [alt])
+    done = set()
+    for ns, aid, rec, mc in loose:
+        if h.holders(aid) != [ns] or (limit and rec.cls in done):
+            continue
+        done.add(rec.cls)
+        nk = [r for r, _ in mc.refs if r not in mc.keyroles]
+        without = some(o for o in nss if o != ns and not h.m[o].exists(rec.cls) and roots(o))
+        if without:
+            add('modify/end-to-namespace-without-the-class', '%s %s -> %s' % (rec.cls, aid, without), c.ModifyInstance,
+                inst(rec.cls, properties={nk[-1]: h.npath(roots(without)[0])}, path=h.apath(rec, ns)),
+                about=[e for _, e in rec.ends] + [roots(without)[0]])
+            add('create/class-missing-in-far-end-namespace', '%s -> %s' % (rec.cls, without), c.CreateInstance,
+                inst(rec.cls, properties=dict(props(rec, mc, [(r, e) for r, e in rec.ends if r != nk[-1]]),
+                                              **{'Id': 'cm', nk[-1]: h.npath(roots(without)[0])})),
+                namespace=ns, about=[e for _, e in rec.ends] + [roots(without)[0]])
+        nocopy = some(o for o in nss if o != ns and h.m[o].exists(rec.cls) and roots(o))
+        if nocopy:
+            add('modify/end-to-namespace-without-a-copy', '%s %s -> %s' % (rec.cls, aid, nocopy), c.ModifyInstance,
+                inst(rec.cls, properties={nk[-1]: h.npath(roots(nocopy)[0])}, path=h.apath(rec, ns)),
+                about=[e for _, e in rec.ends] + [roots(nocopy)[0]])
+    # ---- classes, qualifier declarations, namespaces
+    ns = class_ns or some(nss)
+    mns = h.m[ns]
+    orphan = Spec('N_Orphan', 'N_Nope')
+    add('class/create-missing-superclass', ns, c.CreateClass, orphan.cimclass(), namespace=ns)
+    add('class/add-missing-superclass', ns, c.add_cimobjects, orphan.cimclass(), namespace=ns)
+    add('class/mof-missing-superclass', ns, c.compile_mof_string, orphan.mof(), namespace=ns)
+    ex = some(mns.cls.values())
+    add('class/create-existing', ex.name, c.CreateClass, ex.spec.cimclass(), namespace=ns)
+    add('class/add-existing', ex.name, c.add_cimobjects, ex.spec.cimclass(), namespace=ns)
+    badref = Spec('A_BadRef', assoc=True, refs=(('P', 'N_Nope', True), ('Q', 'N_Base', True)))
+    add('class/create-reference-to-missing-class', ns, c.CreateClass, badref.cimclass(), namespace=ns)
+    add('class/mof-reference-to-missing-class', ns, c.compile_mof_string, badref.mof(), namespace=ns)
+    add('class/create-association-below-ordinary-class', ns, c.CreateClass,
+        Spec('A_BadParent', 'N_Base', assoc=True).cimclass(), namespace=ns)
+    add('class/create-undeclared-qualifier', ns, c.CreateClass,
+        CIMClass('N_BadQual', qualifiers={'Bogus': CIMQualifier('Bogus', True)}), namespace=ns)
+    add('class/create-namespace-missing', 'root/zz', c.CreateClass, Spec('N_X', idkey=True).cimclass(), namespace='root/zz')
+    add('class/modify-missing', ns, c.ModifyClass, CIMClass('N_Nope'), namespace=ns)
+    add('class/delete-missing', ns, c.DeleteClass, 'N_Nope', namespace=ns)
+    add('class/delete-namespace-missing', 'root/zz', c.DeleteClass, 'N_Base', namespace='root/zz')
+    parent = some(x for x in mns.cls.values() if not mns.leaf(x.name))
+    if parent:
+        add('class/modify-with-subclasses', parent.name, c.ModifyClass, parent.spec.cimclass(), namespace=ns)
+    used = {n[1].lower() for n in mns.nodes.values()} | {r.cls.lower() for r in mns.assocs.values()}
+    busy = some(x for x in mns.cls.values() if mns.leaf(x.name) and x.name.lower() in used)
+    if busy:
+        add('class/modify-with-instances', busy.name, c.ModifyClass, busy.spec.cimclass(), namespace=ns)
+    if ns0 in h.m:       # a MOF redefinition only reaches the right class in the default namespace (K_MOFNS)
+        m0 = h.m[ns0]
+        used0 = {n[1].lower() for n in m0.nodes.values()} | {r.cls.lower() for r in m0.assocs.values()}
+        stuck = some(x for x in m0.cls.values() if not m0.leaf(x.name) or x.name.lower() in used0)
+        if stuck:
+            add('class/mof-redefinition-with-subclasses-or-instances', stuck.name, c.compile_mof_string, stuck.spec.mof(),
+                namespace=ns0)
+            h.mof_saw(ns0, [stuck.name])
+    free = some(x for x in mns.cls.values() if mns.leaf(x.name) and x.name.lower() not in used and x.parent)
+    if free:
+        other = 'N_Other' if free.parent != 'N_Other' else 'N_Base'
+        add('class/modify-superclass-changed', free.name, c.ModifyClass,
+            Spec(free.name, other, assoc=free.spec.assoc).cimclass(), namespace=ns)
+        add('class/modify-superclass-dropped', free.name, c.ModifyClass, CIMClass(free.name), namespace=ns)
+    add('qualifier/delete-in-use', ns, c.DeleteQualifier, 'Key', namespace=ns)
+    add('qualifier/delete-missing', ns, c.DeleteQualifier, 'Bogus', namespace=ns)
+    add('namespace/remove-non-empty', ns, c.remove_namespace, ns)
+    add('namespace/remove-missing', 'root/zz', c.remove_namespace, 'root/zz')
+    add('namespace/add-existing', ns, c.add_namespace, ns)
+    return out
+
+
+BATCH_BAD = {'add': ('existing-instance', 'class-with-missing-superclass'),
+             'mof': ('instance-of-unknown-class', 'class-with-missing-superclass', 'syntax-error',
+                     'cross-namespace-key-exists')}
+
+
+def failed_batch(h, way, pos, badkind):
+    """A batch of two valid elements (a new node; a new association from an existing node to it) with an invalid one at
+    position pos. Returns False if the state does not allow it. The book takes the prefix as applied (see above)."""
+    c = h.conn
+    ns = 'root/a'
+    mns = h.m[ns]
+    old = [n for n in mns.nodes.values() if mns.is_a(n[1], 'N_Base')]
+    if not old or not mns.exists('A_Loose'):
+        return False
+    x = h.rnd.choice(old)
+    h.seq += 1
+    new, aid = (ns, 'N_Base', 'bn%d' % h.seq), 'b%d' % h.seq
+    rec = ARec('A_Loose', aid, [('Src', x), ('Dst', new)])
+    if way == 'mof' and any((ns, k.lower()) in h.mof_stale for k in ('N_Base', 'A_Loose')):
+        way = 'add'
+        badkind = BATCH_BAD['add'][pos % 2]
+    clash = None
+    if badkind == 'cross-namespace-key-exists':
+        cand = [(r, o) for r in mns.assocs.values() if r.cls == 'A_Loose' and h.holders(r.aid) == [ns]
+                for o in sorted(h.m) if o != ns and h.m[o].exists('A_Loose') and
+                [n for n in h.m[o].nodes.values() if n[1] == 'N_Base']]
+        if not cand:
+            badkind = 'instance-of-unknown-class'
+        else:
+            r, o = h.rnd.choice(cand)
+            clash = (r.aid, [n for n in h.m[o].nodes.values() if n[1] == 'N_Base'][0])
+    if way == 'add':
+        good = [CIMInstance('N_Base', properties={'Id': new[2]}, path=h.npath(new)),
+                CIMInstance('A_Loose', properties=[CIMProperty('Id', aid)] + [
+                    CIMProperty(r, h.npath(e), type='reference', reference_class='N_Base') for r, e in rec.ends],
+                    path=CIMInstanceName('A_Loose', {'Id': aid}, namespace=ns))]
+        bad = {'existing-instance': CIMInstance(x[1], properties={'Id': x[2]}, path=h.npath(x)),
+               'class-with-missing-superclass': Spec('N_Orphan', 'N_Nope').cimclass()}[badkind]
+        arg = good[:pos] + [bad] + good[pos:]
+        fn, shown = c.add_cimobjects, 'add_cimobjects'
+    else:
+        good = ['instance of N_Base { Id = "%s"; };' % new[2],
+                'instance of A_Loose { Id = "%s"; %s};' % (aid, ''.join(
+                    '%s = "%s:%s.Id=\\"%s\\""; ' % ((r,) + e) for r, e in rec.ends))]
+        bad = {'instance-of-unknown-class': 'instance of N_Nope { Id = "q"; };',
+               'class-with-missing-superclass': Spec('N_Orphan', 'N_Nope').mof(), 'syntax-error': 'class {{ ;',
+               'cross-namespace-key-exists': clash and 'instance of A_Loose { Id = "%s"; Src = "%s:%s.Id=\\"%s\\""; '
+               'Dst = "%s:%s.Id=\\"%s\\""; };' % ((clash[0],) + x + clash[1])}[badkind]
+        arg = ' '.join(good[:pos] + [bad] + good[pos:])
+        fn, shown = c.compile_mof_string, 'compile_mof_string'
+        h.mof_saw(ns, ['N_Base', 'A_Loose'])
+    h.refuse('batch/%s/%s/at-%d' % (way, badkind, pos), '%s in %s: [%s] with the invalid element at position %d; new node '
+             '%s, new association %s %s' % (shown, ns, badkind, pos, new[2], aid, 'Src=%s:%s.Id=%s' % x), fn, arg,
+             namespace=ns, about=[nodekey(x), nodekey(new)] + ([nodekey(clash[1])] if clash else []))
+    if pos >= 1:        # prefix applied (C11: known:add_cimobjects-batch-prefix-kept / compile_mof_string-prefix-kept)
+        mns.nodes[nodekey(new)] = new
+    if pos >= 2:
+        mns.assocs[aid] = rec
+        h.req[aid] = ns
+    h.steps[-1] += ' (booked: the %d element(s) before it)' % pos
+    return True
+
+
+EXPECTED_KINDS = '''create/existing-node add/existing-node add/instance-without-path create/undeclared-property
+mof/undeclared-property create/namespace-missing modify/key-of-node modify/namespace-missing delete/namespace-missing
+create/class-missing mof/instance-of-unknown-class modify/missing-node delete/missing-node delete/class-missing
+create/existing-association-key-references add/existing-association create/missing-key-reference
+create/reference-given-as-string create/undeclared-reference create/reference-target-missing
+mof/reference-target-missing modify/key-reference create/existing-association-id create/missing-key-id
+modify/key-id-of-association modify/missing-association delete/missing-association
+create/reference-target-in-missing-namespace create/reference-target-with-host
+create/reference-target-without-namespace create/cross-namespace-key-exists-in-request-namespace-only
+mof/cross-namespace-key-exists-in-request-namespace-only create/cross-namespace-key-exists-in-far-end-namespace-only
+create/cross-namespace-key-exists-in-one-of-two-far-end-namespaces
+create/cross-namespace-association-again-through-other-namespace
+modify/cross-namespace-through-other-copy-to-missing-target modify/cross-namespace-end-to-third-namespace
+delete/through-namespace-without-copy modify/end-to-missing-target modify/end-to-null modify/undeclared-property
+modify/class-differs-from-path modify/one-valid-one-invalid-end modify/valid-end-and-undeclared-property
+modify/end-to-namespace-without-the-class create/class-missing-in-far-end-namespace
+modify/end-to-namespace-without-a-copy class/create-missing-superclass class/add-missing-superclass
+class/mof-missing-superclass class/create-existing class/add-existing class/create-reference-to-missing-class
+class/mof-reference-to-missing-class class/create-association-below-ordinary-class class/create-undeclared-qualifier
+class/create-namespace-missing class/modify-missing class/delete-missing class/delete-namespace-missing
+class/modify-with-subclasses class/modify-with-instances class/mof-redefinition-with-subclasses-or-instances
+class/modify-superclass-changed class/modify-superclass-dropped qualifier/delete-in-use qualifier/delete-missing
+namespace/remove-non-empty namespace/remove-missing namespace/add-existing'''.split()
+ALWAYS = ('create/cross-namespace', 'mof/cross-namespace', 'modify/one-valid', 'modify/valid-end', 'modify/end-to-namespace',
+          'modify/cross-namespace', 'create/class-missing-in-far')
+
+
+def hist_rejections(rnd, quick):
+    """Refused operations of every kind between the rounds: the answers have to stay those of the unchanged book."""
+    h = Hist('history/refused', rnd, quick)
+    a, b, cc = 'root/a', 'root/b', 'root/c'
+    for s in BASE_SPECS:
+        h.add_class(a, s, 'create')
+    h.add_ns(b)
+    h.add_ns(cc, via='mof', class_via='mof')
+    h.add_class(a, Spec('N_Sub', 'N_Base'), 'mof')
+    h.add_class(a, Spec('N_Free', 'N_Sub'), 'add')
+    h.add_class(a, Spec('A_LooseSub', 'A_Loose', assoc=True), 'create')
+    h.set_matrix(['A_Bin', 'A_Loose', 'A_Mixed', 'A_LooseSub'], ['N_Base', 'N_Other', 'N_Sub'], ALL_ROLES[:6],
+                 focus=('A_Loose', 'A_Bin', 'A_LooseSub', 'N_Base', 'N_Sub'), targets=('N_Base', 'N_Sub', 'A_Loose'))
+    ax, ay, as_, ao = (h.add_node(a, 'N_Base', 'x'), h.add_node(a, 'N_Base', 'y', 'mof'), h.add_node(a, 'N_Sub', 's'),
+                       h.add_node(a, 'N_Other', 'o'))
+    bx, by = h.add_node(b, 'N_Base', 'x'), h.add_node(b, 'N_Base', 'y', 'add')
+    cx = h.add_node(cc, 'N_Base', 'x')
+    h.add_assoc(a, 'A_Bin', [('Ante', ax), ('Dep', ay)])
+    h.add_assoc(a, 'A_Mixed', [('Left', ay), ('Right', ao)])
+    h.add_assoc(a, 'A_Loose', [('Src', ax), ('Dst', as_)], aid='L1')
+    h.add_assoc(a, 'A_LooseSub', [('Src', as_), ('Dst', ay)], aid='LS')
+    h.add_assoc(b, 'A_Loose', [('Src', bx), ('Dst', by)], aid='L2')
+    h.add_assoc(cc, 'A_Loose', [('Src', cx), ('Dst', cx)], aid='L3')
+    h.add_assoc(a, 'A_Loose', [('Src', ay), ('Dst', by)], aid='X1')
+    h.add_assoc(b, 'A_Bin', [('Ante', bx), ('Dep', ay)])
+    h.round('initial')
+    seen = set()
+    for sweep in range(1 if quick else 2):
+        todo = rejections(h, class_ns=a, limit=1 if quick else None)
+        rest = [k for k, _ in todo if not k.startswith(ALWAYS)]
+        light = set(rnd.sample(rest, len(rest) * 4 // 5)) if quick else set()
+        for kind, thunk in todo:
+            thunk()
+            seen.add(kind)
+            if kind in light:       # quick tier: only the stores are compared after four fifths of the ordinary kinds
+                h.check_stores()
+            else:
+                h.round('after refused ' + kind)
+        batches = [(w, p, k) for w in ('add', 'mof') for k in BATCH_BAD[w] for p in range(3)]
+        for w, p, k in (rnd.sample(batches, 4) if quick else batches):
+            if failed_batch(h, w, p, k):
+                h.round('after failed batch %s/%s at %d' % (w, k, p))
+        if not quick:       # second sweep on another state (other instances hold the keys, a namespace less)
+            h.delete_assoc('L1')
+            h.add_assoc(a, 'A_LooseSub', [('Src', ay), ('Dst', ax)], aid='L1')
+            h.modify_assoc('X1', 'Dst', bx)
+            h.round('state changed')
+    missing = sorted(set(EXPECTED_KINDS) - seen)
+    if missing:
+        viol('history-refusal-kinds-not-exercised', kinds=missing)
+
+
 def histories(quick):
     def rnd(tag):       # every history has its own generator: each can be replayed alone
         return random.Random('%d/%s' % (R.seed, tag))
@@ -2317,6 +2764,7 @@ def histories(quick):
     run_history(hist_namespaces, rnd('namespaces'), quick)
     run_history(hist_instances, rnd('instances'), quick)
     run_history(hist_modify_class, rnd('modify-class'), quick)
+    run_history(hist_rejections, rnd('refused'), quick)
     for i in range(2 if quick else 8):
         run_history(hist_random, i, rnd('random/%d' % i), quick, 7 if quick else 25)
 
